@@ -460,6 +460,10 @@ pub mod channel {
                 unsafe { &*self.inner }
             }
             pub fn max_buffer_size(&self, _size: usize) {}
+            /// the sender has marked the end of the stream (chunks may still be queued)
+            pub fn is_eof(&self) -> bool {
+                self.shared().eof.get()
+            }
             pub async fn read(&self) -> Option<Result<Bytes, E>> {
                 let s = self.shared();
                 if let Some(e) = s.err.take() {
